@@ -27,5 +27,7 @@ HARNESSES = [
     H("c03_stop::c03_stop_timeout", desc="real stop_process times out: init Ok, one StopProcessFailed soft error, later steps run", timeout=900, est_gb=4),
     H("c03_stop::c03_stop_stat_unreadable", desc="real stop_process cannot read the state: same", timeout=900, est_gb=4),
     H("c03_suspend::c03_two_threads_attach_fails_first", desc="attach to one thread fails: soft error, the other threads are still suspended and listed", timeout=1800, est_gb=11, mem_gb=24),
+    H("c18_streams::c11_systeminfo_cpuinfo_unreadable", desc="real systeminfo_stream::write, /proc/cpuinfo cannot be opened: stream intact (architecture, platform, OS string), one soft error", timeout=900, est_gb=4, loops={"CPU_INFORMATION": 30}),
+    H("c18_streams::c11_systeminfo_cpuinfo_empty", desc="the same with an empty /proc/cpuinfo (no entry found)", timeout=900, est_gb=4, loops={"CPU_INFORMATION": 30}),
     K("c11_dump_all_best_effort_fail", "byte-level: every best-effort step fails", "thorough"),
 ]
